@@ -125,7 +125,11 @@ fn case<P: ParamRing>(ctx: &mut Ctx, rng: &mut Rng) where for<'x> &'x P: RingOps
     let l = to_link(&pd);
     let l2 = l.clone();
     let pool = &pools()[&nthreads];
-    let res = guarded(move || pool.install(move || { let (h, t) = P::ht(); export(&KhComplex::<P>::new(&l2, &h, &t, reduced)) }));
+    // one complex in three is built divide-and-conquer (two halves glued by TngComplex::connect)
+    let ncr = l2.crossing_num();
+    let split = if ncr >= 2 && rng.chance(1, 3) { Some(rng.urange(1, ncr - 1)) } else { None };
+    if split.is_some() { ctx.count("divide_and_conquer_builds", 1) }
+    let res = guarded(move || pool.install(move || { let (h, t) = P::ht(); export(&build_complex_split::<P>(&l2, &h, &t, reduced, split)) }));
     let ex = match res {
         Ok(x) => x,
         Err(e) => {
